@@ -6,7 +6,10 @@
 (*   crashed  the run aborted;  missing: the run printed no line for it       *)
 (*   out      what the program printed: kept (input allele numbers of REF and *)
 (*            the ALTs in output order), extra_alt, refmasked, filters,       *)
-(*            afprior (thousandths, -1 "."), gts (-1 "."), afp, gp            *)
+(*            afprior (thousandths, -1 "."), gts (-1 "."), afp, gp,           *)
+(*            ploidies (per sample; <<>> if not recorded), sampled (number of *)
+(*            haplotype alleles each sampler object of the record was built   *)
+(*            with; <<>> for call-exact / not observed)                       *)
 (*   exact    FALSE: c is an AlleleFilterOps instance (integers in a common    *)
 (*            unit); TRUE: c is an AlleleFilterExact instance (every number   *)
 (*            [m |-> BigNat digits, s |-> decimals], as the text spells it)   *)
@@ -57,6 +60,11 @@ Verdict(e) ==
   ELSE IF ~invalid /\ flagged THEN "FilterWithoutCause"
   ELSE IF \E s \in DOMAIN o.gts : \E j \in DOMAIN o.gts[s] : o.gts[s][j] >= 0 /\ (o.gts[s][j] + 1) \notin us THEN "NoMaskedInGT"
   ELSE IF invalid THEN "ok"
+  \* (ploidies / sampled are recorded for the runs that observe them; empty otherwise)
+  \* a call has as many alleles as the sample's ploidy (samples of different ploidy in one run)
+  ELSE IF \E s \in DOMAIN o.ploidies : s \in DOMAIN o.gts /\ Len(o.gts[s]) # o.ploidies[s] THEN "GtHasPloidyAlleles"
+  \* exactly the usable alleles (not masked, positive prior - however small) are handed to the sampler
+  ELSE IF \E i \in DOMAIN o.sampled : o.sampled[i] # Cardinality(us) THEN "SamplerGetsExactlyTheUsableAlleles"
   ELSE IF \E s \in DOMAIN o.afp : Len(o.afp[s]) # Len(k) THEN "PosteriorVectorLength"   \* one AFP entry per allele
   ELSE IF \E s \in DOMAIN o.afp : \E j \in 1..Len(k) : j \notin us /\ o.afp[s][j] # 0 THEN "ZeroPosteriorAFP"
   ELSE IF \E s \in DOMAIN o.gp :
